@@ -6,7 +6,7 @@ from hypothesis import strategies as st
 from ..core import Part, sut
 from ..oracles import sgr as SGR
 from ..oracles.vt import VT, VTError
-from ..oracles.sched import Sched, CoopRLock, Deadlock, HarnessTimeout
+from ..oracles.sched import Sched, CoopRLock, CoopEvent, Deadlock, HarnessTimeout
 
 PROP_ID = "C11"
 LEVEL = "exploration"
@@ -14,7 +14,10 @@ RULE = "thread programs x schedules run by a deterministic scheduler that serial
 ASSUMPTIONS = [
     "preemption points: every executed line of rich/console.py, live.py, live_render.py, progress.py, file_proxy.py, every acquire/release of the (proxied) console, record, "
     "live and progress locks and every file write/flush; C-level calls (list.extend, io writes) are atomic under the GIL and code of other modules is not preempted",
-    "auto-refresh threads are replaced by explicit refresher programs that run the same refresh() call (real timers would put wall-clock time into the schedule)",
+    "explicit refresher programs run the same refresh() call as the auto-refresh thread; with auto=True the display's own _RefreshThread.run is a scheduled worker whose timed wait "
+    "alternately expires at once and gives way to another thread (real timers would put wall-clock time into the schedule), and ends when no other thread is left",
+    "programs marked caches=cold/full start with the library's function caches emptied / the 4096-entry cell-width cache at capacity, and are also preempted at every line of cells.py, "
+    "_lru_cache.py, palette.py and color.py; styled programs print markers in distinct RGB colours on a 16-colour console",
     "programs that capture are run on a console that is not recording (DESIGN 7.10); log() is used with log_time=False and log_path=False",
     "every print/log call carries a unique marker, so a write identifies its call; text is single-width ASCII",
     "known finding F2: a print preempted between the render hook and its write while another thread redraws a frame of a different height - screen mismatches under such "
@@ -64,6 +67,49 @@ def traced_files():
     return {rich.console.__file__, rich.live.__file__, rich.live_render.__file__, rich.progress.__file__, rich.file_proxy.__file__}
 
 
+def deep_files():
+    """Modules with process-wide state that rendering touches outside every lock: the cell-width cache and the colour matching tables."""
+    import rich.cells
+    import rich._lru_cache
+    import rich.palette
+    import rich.color
+
+    return {rich.cells.__file__, rich._lru_cache.__file__, rich.palette.__file__, rich.color.__file__}
+
+
+def clear_shared_caches():
+    """Empty every function cache of the library (lru_cache wrappers and the cell-width LRU), so that the scheduled section computes everything itself."""
+    import sys as _sys
+    import rich.cells
+
+    for name, mod in list(_sys.modules.items()):
+        if not (name == "rich" or name.startswith("rich.")) or mod is None:
+            continue
+        for obj in list(vars(mod).values()):
+            targets = [obj]
+            if isinstance(obj, type):
+                targets = [v.__func__ if isinstance(v, (classmethod, staticmethod)) else v for v in vars(obj).values()]
+            for t in targets:
+                cc = getattr(t, "cache_clear", None)
+                if callable(cc):
+                    try:
+                        cc()
+                    except Exception:  # noqa
+                        pass
+    rich.cells.cell_len.__defaults__[0].clear()
+
+
+STYLED_COLOURS = ["#a00a0a", "#0a0aa0", "#0aa00a", "#c8c800", "#7f7f7f", "#ff00ff"]
+
+
+def marker_renderable(mid, nlines, styled):
+    if not styled:
+        return marker_text(mid, nlines)
+    from rich.text import Text
+
+    return Text(marker_text(mid, nlines), style=STYLED_COLOURS[mid % len(STYLED_COLOURS)])
+
+
 def run_program(prog, preempt, tape, problems):
     """Execute a thread program under a schedule. Appends (clause, sig, detail) to problems. Returns (steps, switches_in_rich, exposed)."""
     from rich.console import Console
@@ -75,20 +121,56 @@ def run_program(prog, preempt, tape, problems):
     sched_ref = [None]
     f = RecFile(sched_ref)
     W, H = 30, 12
-    kw = dict(width=W, height=H, force_terminal=True, color_system=None, legacy_windows=False, log_time=False, log_path=False, _environ={})
+    styled = bool(prog.get("styled"))
+    deep = prog.get("caches") in ("cold", "full")
+    auto = bool(prog.get("auto"))
+    transient = bool(prog.get("transient"))
+    kw = dict(width=W, height=H, force_terminal=True, color_system="standard" if styled else None, legacy_windows=False, log_time=False, log_path=False, _environ={})
     con = Console(file=f, record=prog.get("record", False), **kw)
     twin = Console(file=io.StringIO(), **kw)
-    s = Sched(dict((int(a), int(b)) for a, b in preempt), files=traced_files(), tape=tape)
+    s = Sched(dict((int(a), int(b)) for a, b in preempt), files=traced_files() | (deep_files() if deep else set()), tape=tape)
     sched_ref[0] = s
     con._lock = CoopRLock(s, "console")
     con._record_buffer_lock = CoopRLock(s, "record")
     display = None
     kind = prog.get("display")
+    restore = []
+    if auto:
+        # the display's own refresh thread runs as a scheduled worker: its Event is cooperative, start() registers run() with the scheduler, join() waits through it
+        import rich.live as RL
+        import rich.progress as RP
+
+        for mod, attr in ((RL, "live"), (RP, "progress")):
+            RT = mod._RefreshThread
+            restore.append((RT, RT.__init__, RT.start, RT.join))
+
+            def init(self, owner, refresh_per_second=10, _attr=attr):
+                setattr(self, _attr, owner)
+                self.refresh_per_second = refresh_per_second
+                self.done = CoopEvent(s, "refresh-done", expire_when_alone=True)
+
+            RT.__init__ = init
+            RT.start = lambda self: setattr(self, "_vp_worker", s.spawn(self.run, "refresher") if s.active else s.add(self.run, "refresher"))
+            RT.join = lambda self, timeout=None: s.join(self._vp_worker)
+    try:
+        return _run_program(prog, problems, s, sched_ref, f, con, twin, W, H, kind, auto, transient, styled, deep)
+    finally:
+        for RT, i, st_, j in restore:
+            RT.__init__, RT.start, RT.join = i, st_, j
+
+
+def _run_program(prog, problems, s, sched_ref, f, con, twin, W, H, kind, auto, transient, styled, deep):
+    from rich.live import Live
+    from rich.progress import Progress, TextColumn
+    from rich.text import Text
+    from rich.console import RenderGroup
+
+    display = None
     if kind == "live":
-        display = Live(RenderGroup(*[Text(l) for l in prog["frame0"]]), console=con, auto_refresh=False, transient=False, redirect_stdout=False, redirect_stderr=False)
+        display = Live(RenderGroup(*[Text(l) for l in prog["frame0"]]), console=con, auto_refresh=auto, transient=transient, redirect_stdout=False, redirect_stderr=False)
         display._lock = CoopRLock(s, "live")
     elif kind == "progress":
-        display = Progress(TextColumn("{task.description} {task.completed:.0f}"), console=con, auto_refresh=False, transient=False, redirect_stdout=False, redirect_stderr=False, get_time=lambda: 1.0)
+        display = Progress(TextColumn("{task.description} {task.completed:.0f}"), console=con, auto_refresh=auto, transient=transient, redirect_stdout=False, redirect_stderr=False, get_time=lambda: 1.0)
         display._lock = CoopRLock(s, "progress")
         tid = display.add_task("job", total=100)
     if display is not None:
@@ -112,7 +194,7 @@ def run_program(prog, preempt, tape, problems):
             for oi, op in enumerate(ops):
                 k = op[0]
                 if k == "print":
-                    con.print(marker_text(op[1], op[2]))
+                    con.print(marker_renderable(op[1], op[2], styled))
                 elif k == "log":
                     con.log(marker_text(op[1], 1))
                 elif k == "capture":
@@ -140,7 +222,7 @@ def run_program(prog, preempt, tape, problems):
             if op[0] == "print":
                 twin.file.seek(0)
                 twin.file.truncate(0)
-                twin.print(marker_text(op[1], op[2]))
+                twin.print(marker_renderable(op[1], op[2], styled))
                 expected_text[op[1]] = twin.file.getvalue()
             elif op[0] == "log":
                 twin.file.seek(0)
@@ -154,6 +236,22 @@ def run_program(prog, preempt, tape, problems):
                     twin.print(marker_text(mid, 1))
                     expected_text[mid] = twin.file.getvalue()
         s.add(body(ti, ops), "T%d" % ti)
+    if deep:
+        import rich.cells
+
+        clear_shared_caches()
+        if prog["caches"] == "full":
+            # a long-running process: the cell-width cache is at capacity, and what the first thread is about to measure is what it holds longest
+            cache = rich.cells.cell_len.__defaults__[0]
+            for op in prog["threads"][0]:
+                if op[0] == "print":
+                    twin.print(marker_renderable(op[1], op[2], styled))
+                elif op[0] == "log":
+                    twin.log(marker_text(op[1], 1))
+            k = 0
+            while len(cache) < cache.cache_size:
+                rich.cells.cell_len("junk%05d" % k)
+                k += 1
     pre_writes = len(f.writes)
     try:
         s.run(timeout=60)
@@ -240,6 +338,8 @@ def run_program(prog, preempt, tape, problems):
         else:
             tail = got[len(rows):]
             frame_ok = len(tail) == 1 and tail[0].startswith("job ")
+        if transient:
+            frame_ok = got[len(rows):] == []
         if has_stop:
             # a thread stopped the display mid-way: later prints follow the (then permanent) frame, the simple 'printed rows then frame' layout does not apply
             printed_ok = frame_ok = True
@@ -266,6 +366,21 @@ LIVE_PROGRAMS = [
 ]
 
 
+AUTO_PROGRAMS = [
+    {"display": "progress", "auto": True, "transient": True, "threads": [[["print", 1, 1]], [["advance", 2], ["stop"]]]},
+    {"display": "live", "auto": True, "frame0": ["a", "b"], "threads": [[["print", 2, 1], ["update", ["x"], False]], [["stop"]]]},
+    {"display": "live", "auto": True, "transient": True, "frame0": ["a"], "threads": [[["log", 3]], [["update", ["p", "q"], True]]]},
+    {"display": "progress", "auto": True, "threads": [[["stop"]], [["print", 4, 1], ["stop"]]]},
+    {"display": "live", "auto": True, "transient": True, "frame0": ["a"], "threads": [[["stop"]], [["stop"]]]},
+]
+DEEP_PROGRAMS = [
+    {"caches": "full", "threads": [[["print", 1, 1]], [["print", 2, 1]]]},
+    {"caches": "cold", "styled": True, "threads": [[["print", 1, 1]], [["print", 2, 1]]]},
+    {"caches": "cold", "styled": True, "record": True, "threads": [[["print", 3, 2]], [["log", 4]], [["print", 5, 1]]]},
+    {"caches": "full", "styled": True, "threads": [[["print", 6, 1], ["print", 7, 1]], [["log", 8], ["print", 9, 2]]]},
+]
+
+
 class Exhaustive(Part):
     custom = True
     exhaustive = True
@@ -287,8 +402,9 @@ class Exhaustive(Part):
             steps, _, _ = run_program(prog, [], [0], probs)
             for clause, sig, detail in probs:
                 found.setdefault(sig, ({"program": pi, "preempt": [], "tape": [0]}, clause, detail))
-            nthreads = len(prog["threads"])
-            scheds = [[(k, c)] for k in range(steps) for c in range(nthreads - 1)]
+            nthreads = len(prog["threads"]) + (1 if prog.get("auto") else 0)
+            stride = 1 if steps <= 1500 or tier == "thorough" else 2   # programs traced into the shared-state modules have many more yield points
+            scheds = [[(k, c)] for k in range(0, steps, stride) for c in range(nthreads - 1)]
             if tier == "thorough":
                 pairs = [[(a, 0), (b, cb)] for a in range(0, steps, 3) for b in range(a + 1, min(steps, a + 400), 5) for cb in range(nthreads - 1)]
                 scheds += pairs[:12000]
@@ -338,6 +454,10 @@ class Generated(Part):
         @st.composite
         def prog(draw):
             display = draw(st.sampled_from([None, None, "live", "live", "progress"]))
+            auto = display is not None and draw(st.booleans())
+            transient = display is not None and draw(st.sampled_from([False, False, True]))
+            caches = draw(st.sampled_from([None, None, None, "cold", "full"])) if display is None else None
+            styled = draw(st.booleans()) if caches else False
             nthreads = draw(st.integers(2, 4))
             mid = [0]
             threads = []
@@ -373,11 +493,18 @@ class Generated(Part):
                         ops.append([k])
                 threads.append(ops)
             p = {"display": display, "threads": threads, "record": (not use_capture) and draw(st.booleans())}
+            if auto:
+                p["auto"] = True
+            if transient:
+                p["transient"] = True
+            if caches:
+                p["caches"] = caches
+                p["styled"] = styled
             if display == "live":
                 p["frame0"] = ["f%d" % i for i in range(draw(st.integers(0, 3)))]
             return p
 
-        pre = st.lists(st.tuples(st.integers(0, 900), st.integers(0, 3)).map(list), max_size=6)
+        pre = st.lists(st.tuples(st.one_of(st.integers(0, 900), st.integers(0, 4000)), st.integers(0, 3)).map(list), max_size=6)
         return st.builds(lambda p, pre, tape: {"prog": p, "preempt": pre, "tape": tape}, prog(), pre, st.lists(st.integers(0, 3), min_size=1, max_size=5))
 
     def check(self, spec, ctx):
@@ -390,8 +517,15 @@ class Generated(Part):
         if sw and writers >= 2:
             ctx.nontrivial = True
         ctx.cls("display-%s" % spec["prog"]["display"])
+        if spec["prog"].get("auto"):
+            ctx.cls("auto-refresh-thread")
+        if spec["prog"].get("caches"):
+            ctx.cls("caches-%s" % spec["prog"]["caches"])
         if exposed:
             ctx.cls("f2-window-exposed")
 
 
-PARTS = [Exhaustive("plain-exhaustive", PLAIN_PROGRAMS, "programs without a display (print/log/capture/record)"), Exhaustive("live-exhaustive", LIVE_PROGRAMS, "programs with a Live or Progress display"), Generated()]
+PARTS = [Exhaustive("plain-exhaustive", PLAIN_PROGRAMS, "programs without a display (print/log/capture/record)"), Exhaustive("live-exhaustive", LIVE_PROGRAMS, "programs with a Live or Progress display"),
+         Exhaustive("auto-exhaustive", AUTO_PROGRAMS, "programs whose display runs its own auto-refresh thread (scheduled like any other thread; transient or not; threads that stop it)"),
+         Exhaustive("shared-state-exhaustive", DEEP_PROGRAMS, "programs printing (coloured) text with the library's process-wide caches emptied or at capacity, preempted also inside cells.py, _lru_cache.py, palette.py and color.py"),
+         Generated()]
